@@ -16,7 +16,7 @@ TIMEOUT = {'quick': 1500, 'thorough': 7200}
 MUST_HIT = ['Classify.input-accepted', 'Classify.input-rejected', 'Classify.build-ok',
             'Classify.build-rejected', 'ShadowLoader.compare', 'ShadowLoader.statements-unchanged',
             'CpuBudget.guarded', 'Route.input', 'Route.file_input', 'Route.filename_input',
-            'ShadowLoader.diagnostic-compared', 'Valid.named-inserts-with-different-column-lists', 'Mutant.alias-edit']
+            'ShadowLoader.diagnostic-compared', 'Valid.named-inserts-with-different-column-lists', 'Mutant.alias-edit', 'Text.python-blank-that-the-lexer-rejects']
 MUST_REACH = ['xtuml/load.py:ModelLoader.t_error', 'xtuml/load.py:ModelLoader.p_error',
               'xtuml/load.py:deserialize_value', 'xtuml/load.py:ModelLoader.p_cardinality_many',
               'xtuml/load.py:ModelLoader.input', 'xtuml/load.py:ModelLoader.build_metamodel']
@@ -140,6 +140,7 @@ def try_build(ctx, loader, texts):
 
 
 VALID_SHAPES = {}
+ODD_BLANKS = [0]
 
 
 def valid_file(rng):
@@ -170,8 +171,23 @@ def hostile_repetition(rng):
     return head + unit * n + tail
 
 
+def odd_blank(rng):
+    '''
+    a character that is white space for Python's str methods but not for the lexer, after some text and followed by
+    nothing but blanks (or by more text)
+    '''
+    ch = rng.choice(('\x0b', '\x0c', '\x1c', '\x1d', '\x1e', '\x1f', '\x85', '\xa0', '\u1680', '\u2000', '\u2028', '\u2029',
+                     '\u202f', '\u205f', '\u3000'))
+    head = rng.choice(('', '', ' ', '\n', "INSERT INTO X VALUES (1);\n", 'CREATE TABLE X (Id INTEGER);', '-- c\n', valid_file(rng)))
+    tail = rng.choice(('', '', ' ', '  \n', '\n\n', '\t', ' x', ';', ch, ' ' + ch + ' '))
+    return head + ch + tail
+
+
 def gen_text(rng):
     k = rng.random()
+    if k < 0.02:
+        ODD_BLANKS[0] += 1
+        return 'odd-blank', odd_blank(rng)
     if k < 0.05:
         return 'repetition', hostile_repetition(rng)
     if k < 0.15:
@@ -275,3 +291,4 @@ def run(ctx):
         ctx.hit(k, n)
     for k, n in sqlmut.COUNTS.items():
         ctx.hit(k, n)
+    ctx.hit('Text.python-blank-that-the-lexer-rejects', ODD_BLANKS[0])
